@@ -10,6 +10,10 @@
 (*   a cell flagged exotic whose type byte is unknown (0xff), or whatever      *)
 (*     byte the data happened to start with; a Merkle-proof header in place of *)
 (*     the cell;                                                               *)
+(*   an ordinary cell of a conforming bag that no longer carries a value of the *)
+(*     type: its last / first / every reference removed, its last reference     *)
+(*     repeated, its first and last references exchanged, its data cut to       *)
+(*     0 / 1 / 16 / 32 / half / all-but-one bits;                               *)
 (* the bag is also written with no root and with two roots, and with its root   *)
 (* wrapped in a Merkle-proof cell (hash and depth of the root computed by        *)
 (* Cells!InfoTable) as a lite server sends proofs - alone and as the second of   *)
@@ -23,8 +27,12 @@ EXTENDS Boc, Json
 Seeds == ndJsonDeserialize("seeds.ndjson")
 
 Rep(n, v) == [i \in 1..n |-> v]
-CellClasses == {"pruned", "pruned_wronghash", "pruned_mask7", "pruned_short", "library", "library_short",
-                "exotic_ff", "exotic_flag", "merkle_hdr"}
+ExoticClasses == {"pruned", "pruned_wronghash", "pruned_mask7", "pruned_short", "library", "library_short",
+                  "exotic_ff", "exotic_flag", "merkle_hdr"}
+\* the cell stays an ordinary cell of a conforming bag; the value it is part of no longer is one of its type
+RefClasses  == {"drop_last_ref", "drop_first_ref", "drop_all_refs", "dup_ref", "swap_refs"}
+CutClasses  == {"cut_bits_0", "cut_bits_1", "cut_bits_16", "cut_bits_32", "cut_bits_half", "cut_bits_last"}   \* data truncated to k bits
+CellClasses == ExoticClasses \cup RefClasses \cup CutClasses
 BagClasses  == {"same", "roots0", "roots2", "roots2same", "mp_root", "mp_pair"}     \* "same": the seed itself, unchanged
 
 TableOf(s) == FromJson(s.cells)
@@ -38,6 +46,8 @@ Compact(T) ==
   IN [p \in 1..Len(old) |-> [T[old[p]] EXCEPT !.r = [j \in 1..Len(T[old[p]].r) |-> new(T[old[p]].r[j])]]]
 
 Cut(b, n) == IF Len(b) > n THEN SubSeq(b, 1, n) ELSE b
+CutAt(c, cls) == CASE cls = "cut_bits_0" -> 0 [] cls = "cut_bits_1" -> 1 [] cls = "cut_bits_16" -> 16 [] cls = "cut_bits_32" -> 32
+                   [] cls = "cut_bits_half" -> Len(c.b) \div 2 [] cls = "cut_bits_last" -> Len(c.b) - 1
 NewCell(T, k, cls) ==
   LET c == T[k]
       I == InfoTable(T) IN
@@ -50,6 +60,12 @@ NewCell(T, k, cls) ==
     [] cls = "exotic_ff" -> [c EXCEPT !.b = Cut(BytesToBits(<<255>>) \o c.b, 1023), !.x = 5]
     [] cls = "exotic_flag" -> [c EXCEPT !.x = 5]
     [] cls = "merkle_hdr" -> [c EXCEPT !.b = BytesToBits(<<3>> \o Rep(32, 204) \o <<0, 1>>), !.x = MerkleProof]
+    [] cls = "drop_last_ref"  -> [c EXCEPT !.r = SubSeq(c.r, 1, Len(c.r) - 1)]
+    [] cls = "drop_first_ref" -> [c EXCEPT !.r = SubSeq(c.r, 2, Len(c.r))]
+    [] cls = "drop_all_refs"  -> [c EXCEPT !.r = <<>>]
+    [] cls = "dup_ref"        -> [c EXCEPT !.r = Append(c.r, c.r[Len(c.r)])]
+    [] cls = "swap_refs"      -> [c EXCEPT !.r = [j \in 1..Len(c.r) |-> IF j = 1 THEN c.r[Len(c.r)] ELSE IF j = Len(c.r) THEN c.r[1] ELSE c.r[j]]]
+    [] cls \in CutClasses     -> [c EXCEPT !.b = SubSeq(c.b, 1, CutAt(c, cls))]
 
 \* masks of the mutated table: pruned branches carry their own, everything above follows from the children
 Remask(T) == WithMasks([i \in 1..Len(T) |-> [T[i] EXCEPT !.m = -1]])
@@ -61,7 +77,16 @@ Wrapped(T) ==
       sh == [i \in 1..Len(T) |-> [T[i] EXCEPT !.r = [j \in 1..Len(T[i].r) |-> T[i].r[j] + 1]]]
   IN Remask(<<mp>> \o sh)
 
-Applicable(T, k, cls) == cls = "exotic_flag" => Len(T[k].b) >= 8
+Applicable(T, k, cls) ==
+  LET c == T[k] IN
+  CASE cls = "exotic_flag" -> Len(c.b) >= 8
+    [] cls \in {"drop_last_ref", "drop_first_ref"} -> Len(c.r) >= 1
+    [] cls = "drop_all_refs" -> Len(c.r) >= 2                  \* (with one reference it is drop_last_ref)
+    [] cls = "dup_ref"   -> Len(c.r) \in 1..3
+    [] cls = "swap_refs" -> Len(c.r) >= 2 /\ c.r[1] # c.r[Len(c.r)]
+    [] cls \in CutClasses -> c.x = Ordinary /\ CutAt(c, cls) >= 0 /\ CutAt(c, cls) < Len(c.b)
+                             /\ (cls \in {"cut_bits_half", "cut_bits_last"} => CutAt(c, cls) \notin {0, 1, 16, 32})
+    [] OTHER -> TRUE
 
 Choice(i) == [magic |-> "generic", idx |-> (i % 2 = 0), crc |-> (i % 3 = 0), cache |-> FALSE, size |-> 1, ob |-> 2, hashes |-> FALSE]
 
